@@ -10,7 +10,8 @@ acceptor `a`, each with its own journal), two FIFO queues of frames in flight, e
 (no bound on its length, on the number of breaks or on the interleaving), under two explicit, decidable
 side conditions:
 
-* `Wf evs`      – the application sends application messages (type outside `0 1 2 4 5 A`, no header / trailer tags)
+* `Wf evs`      – the application sends application messages (type outside `0 1 2 4 5 A`, no header / trailer tags;
+                  an explicit PossDupFlag(43) other than `Y` and an OrigSendingTime(122) are allowed)
                   and the clock text (`SendingTime`) is single-byte;
 * `InRange l`   – the outbound counters of the final state are `≤ sys.maxsize + 1` (they never decrease, so this
                   bounds the whole run): beyond that the journal (SQLite INTEGER) cannot store a row and
@@ -231,7 +232,9 @@ example : (arun ainit demoEvents).quiescent = true ∧ (arun ainit demoEvents).d
     SyncInv' (arun ainit demoEvents) ∧ SafeInv (arun ainit demoEvents) := by decide
 
 /-- well-formed events exist and the initial state is in range -/
-example : Wf [Ev.reconnect ⟨0, "20240102-00:00:00.000"⟩, Ev.appSend .I ⟨0, "x"⟩ (Msg.mk' "D" [(58, "hi")])] ∧
+example : Wf [Ev.reconnect ⟨0, "20240102-00:00:00.000"⟩, Ev.appSend .I ⟨0, "x"⟩ (Msg.mk' "D" [(58, "hi")]),
+      Ev.appSend .A ⟨0, "x"⟩ (Msg.mk' "8" [(37, "o1"), (43, "N"), (122, "20240101-23:59:00.000")])] ∧
+    ¬ Wf [Ev.appSend .I ⟨0, "x"⟩ (Msg.mk' "D" [(43, "Y")])] ∧
     InRange (Link.init 30) := by decide
 
 end AsyncFix.Link
